@@ -13,6 +13,10 @@ CHECKS={
 "C06":("exploration","Concurrent SpawnRegister/RegisterName/UnregisterName/resolve/terminate histories checked with porcupine against a sequential registry model (step-stamped intervals), identifier bursts checked for repeats, and a release audit at quiescence (listings, names, aliases, events, target manager as target and as requester)."),
 "C07":("exploration","Interleaved calls with simulated-clock timeouts, late/duplicate/foreign/flooded replies, callee deaths and reference-counter cycling; oracle on (request id, reply serial) pairs: own reply or error, request seen at most once, reply consumed at most once."),
 }
+CHECKS.update({
+"C08":("exploration","Supervisor specs (type x strategy x KeepOrder x Significant x auto-shutdown, 1-4 children) driven by event sequences (child exits with five reasons, Disable/Enable/StartChild, stranger exit signals); after each event the real supervisor (Children(), liveness, start counts, start order, observed stop order, own fate) is compared with an executable reference model written from the documented rules; an overlapping regime injects child exits back to back and checks order-independent facts."),
+"C09":("exploration","Failure schedules on the simulated clock (bursts, near-period gaps, drips) against Intensity 1-5 / Period 1-6 s for all supervisor types; sliding-window reference decides after every failure whether the supervisor must still run or must have stopped everything with the 'restart intensity exceeded' reason."),
+})
 NA={}
 def chk(pid):
     level,text=CHECKS[pid]
